@@ -32,12 +32,17 @@ def fix_for_cpp(case):
     return case
 
 
-def method_classes(case, m):
-    """known-finding classifiers that apply to a method"""
+def method_classes(case, m, sections=None):
+    """known-finding classifiers that apply to a method. The two ORDER findings describe a
+    non-canonical slot sequence: when the model's slot sequence for this very method is
+    canonical (`sections` sorted, e.g. an object-bearing struct that is the last buffer) the
+    construct is present but the finding does not apply and nothing is excused."""
     out = set()
     for k in ("ooBeforeOi", "embeddedObjOrder", "smallObjStruct"):
         if F.CLASSIFIERS[k](case, m):
             out.add(k)
+    if sections is not None and list(sections) == sorted(sections):
+        out -= {"ooBeforeOi", "embeddedObjOrder"}
     # bundle whose natural C layout has interior padding
     for d in ("in", "out"):
         smalls = [p for p in m["params"] if p["dir"] == d and idl.param_kind(case, p) in ("prim", "small")]
@@ -73,6 +78,7 @@ def run(ctx, prop):
     cases = []
     for w in F.witness_cases(prop):
         cases.append(("witness", w))
+    cases.append(("gen", gen.coverage_case(f"{prop}-coverage")))
     for i in range(n):
         c = fix_for_cpp(gen.gen_case(ctx.rng, bench_opts(ctx.rng), cid=f"{prop}-{ctx.seed}-{i}"))
         cases.append(("gen", c))
@@ -121,7 +127,11 @@ def run(ctx, prop):
                 pair = f"{call['stub']}->{call['skel']}"
                 hist["pairs"][pair] = hist["pairs"].get(pair, 0) + 1
                 owner, m, op = B.method_of(case, call["iface"], call["method"])
-                cls = method_classes(case, m)
+                mw = None
+                if not a["pc"].get("optional"):
+                    mw = B.model_wire(ctx, case, call["iface"], m, a["plan"])
+                secs = [int(x) for x in mw["sections"].split(",") if x] if mw and "sections" in mw else None
+                cls = method_classes(case, m, secs)
                 if a["plan"]["status"] != 0:
                     hist["error_status_calls"] += 1
                 if a["plan"]["tokens_in"] or a["plan"]["tokens_out"]:
@@ -137,8 +147,7 @@ def run(ctx, prop):
                             fails.append({"error": "caller adopted an output object on a failed call", "objects": objs})
                 # correspondence with the Lean reference encoder (all three properties; C03's oracle)
                 dis = []
-                if not a["pc"].get("optional"):
-                    mw = B.model_wire(ctx, case, call["iface"], m, a["plan"])
+                if mw is not None:
                     dis = B.envelope_vs_model(a, mw, op)
                 if prop == "C03":
                     fails = fails + dis
